@@ -137,16 +137,19 @@ def _run_one(args):
 
 
 def _run_rename_all(args):
-  """Whole-tree must-stay-silent variant: every function-local name of every
-  module is renamed (sa/rename.py; behaviour preserving - the pinned suite
-  passes on such a tree).  Expected: no new violation, no analysis error and
+  """Whole-tree must-stay-silent variants: one behaviour-preserving rewrite is
+  applied to every function of every module - all function-local names renamed
+  (sa/rename.py) or one of the syntactic transforms of sa/transforms.py (the
+  pinned suite passes on each such tree).  Expected: no new violation, no analysis error and
   the same number of obligations per rule (a rule that keys on a local's name
   would silently lose its instances)."""
-  prop, _, root = args
+  prop, v, root = args
   from sa import cli
   from sa import rename as RN
-  res = dict(name='rename-all-locals', expect='silent', file='<every module>', function='<every function>',
-             edit=dict(old='<local name>', new='<local name>_rn'))
+  from sa import transforms as TR
+  which = (v or {}).get('transform', 'rename-locals')
+  res = dict(name='whole-tree:' + which, expect='silent', file='<every module>', function='<every function>',
+             edit=dict(old='<see sa/rename.py, sa/transforms.py>', new=which))
   try:
     base = I.load(root)
     mod = cli.load_rules(prop)
@@ -155,7 +158,8 @@ def _run_rename_all(args):
       if rel.endswith('_test.py'):
         continue
       try:
-        overlay[rel] = RN.rename_source(m.src, rel)[0]
+        overlay[rel] = (RN.rename_source(m.src, rel) if which == 'rename-locals'
+                        else TR.transform_source(m.src, which))[0]
       except Exception:   # pylint: disable=broad-except
         continue
     vidx = I.variant(base, overlay)
@@ -198,9 +202,9 @@ def run_variants(mod, idx, prop, ctx, seed):
   rnd = random.Random(seed)
   rnd.shuffle(variants)
   jobs = [(prop, v, idx.root) for v in variants]
-  if not jobs:
-    return [_run_rename_all((prop, None, idx.root))]
-  jobs.append((prop, dict(name='rename-all-locals', kind='rename-all'), idx.root))
+  from sa import transforms as TR
+  for which in ['rename-locals'] + sorted(TR.TRANSFORMS):
+    jobs.append((prop, dict(name='whole-tree:' + which, kind='rename-all', transform=which), idx.root))
   n = min(16, len(jobs), os.cpu_count() or 4)
   if n <= 1:
     return [_run_one(j) for j in jobs]
